@@ -87,7 +87,7 @@ def scan(w):
             clipdup = bool(extra) and not missing and all(
                 any(O[x] in (getattr(l, "_clip_layers", None) or []) for l in O if hasattr(l, "_clip_layers")) for x in extra)
             yield ("traversal", {"doc": i, "extra": extra, "missing": missing, "extra_are_clip_layers": clipdup})
-        else:
+        elif not getattr(w, "skip_find", False):
             for x in sorted(set(ids)):
                 nm = w.name(x)
                 f = d.find(nm)
@@ -286,6 +286,67 @@ def _work(case):
     return ec.case_digest(ds), fails, stats, guarded
 
 
+# ------------------------------------------------------------------ documents opened from files
+FIXTURES = ["artboard.psd", "group.psd", "clipping-mask.psd", "clipping-mask2.psd", "layers-minimal.psd", "hidden-groups.psd",
+            "layers.psd", "fill_adjustments.psd", "smartobject-layer.psd", "effects/shape-fx.psd"]
+
+
+def fixture_case(name):
+    """open a fixture, check well-formedness right after opening and after a few guarded edits"""
+    import glob
+    import os
+
+    from psd_tools import PSDImage
+
+    ec.quiet()
+    hits = glob.glob(os.path.join(core.REPO, "tests", "psd_files", "**", os.path.basename(name)), recursive=True)
+    if not hits:
+        return []
+    fails = []
+    w = ec.World()
+    w.skip_find = True
+    doc = PSDImage.open(hits[0])
+    w.reg(doc)
+
+    def reg_all(g):
+        for l in g._layers:
+            if id(l) not in w.idx:
+                w.reg(l)
+            if hasattr(l, "_layers"):
+                reg_all(l)
+
+    reg_all(doc)
+    hist = []
+
+    def check(step):
+        for kind, det in scan(w):
+            fails.append((kind, {"fixture": name, "history": [list(o) for o in hist], "step": step, "flags": [], "step_flags": [],
+                                 "op": list(hist[-1]) if hist else [], "outcome": None}, det, "well-formed tree (opened file)"))
+
+    check(-1)
+    n = len(w.objs)
+    groups = [i for i in range(1, n) if w.kind(i) == ec.KGROUP]
+    layers = [i for i in range(1, n)]
+    edits = [("NewGroup", 0)]
+    if layers:
+        edits += [("MoveToGroup", layers[-1], n), ("MoveUp", layers[0], 1)]
+    if groups:
+        edits += [("NewGroup", groups[0]), ("MoveToGroup", n, groups[0])]
+    if len(layers) > 1:
+        edits += [("DeleteLayer", layers[1])]
+    for j, o in enumerate(edits):
+        if fails:
+            break
+        before = snapshot(w)
+        out = w.apply(o)
+        hist.append(o)
+        if out[0] != 0 and snapshot(w)[:len(before)] != before:
+            fails.append(("refused-changed", {"fixture": name, "history": [list(x) for x in hist], "step": j, "flags": [], "step_flags": [],
+                                              "op": list(o), "outcome": out}, {"raised": out[0]}, "tree unchanged after a refused operation"))
+        check(j)
+    return fails
+
+
 def _work_err(case, msg):
     inp = {"scene": case[0], "history": [list(o) for o in case[1]], "step": len(case[1]) - 1, "op": list(case[1][-1]) if case[1] else [],
            "outcome": None, "flags": [], "step_flags": []}
@@ -369,6 +430,18 @@ def run():
     # Python list primitives of the model
     pl = ec.pylist_cases(ck.rng, 6000 if ck.tier == "thorough" else 2000)
     ck.correspond("python_list_primitives", "pylist_case", ec.IMPORTS, pl, ec.pylist_lit, chunk=3000)
+    # documents opened from fixture files (artboards, groups, clipping masks, ...): after open and after a few edits
+    for name in FIXTURES:
+        try:
+            ff = fixture_case(name)
+        except Exception as e:  # noqa
+            import traceback
+
+            ff = [("driver-exception", {"fixture": name, "history": [], "step": -1, "flags": [], "step_flags": [], "op": [], "outcome": None},
+                   "%s: %s | %s" % (type(e).__name__, e, traceback.format_exc()[-300:]), "the fixture opens and the edits run")]
+        ck.count("fixture-documents")
+        for kind, inp, obs, exp in ff:
+            ck.fail(kind, inp, obs, exp)
     # non-layer arguments (implementation only)
     for inp, obs in nonlayer_probe():
         ck.fail("nonlayer-not-refused", inp, obs, "refused (an exception) and the tree unchanged")
@@ -384,6 +457,11 @@ def run():
 def replay(path):
     fl = json.load(open(path))
     inp = fl["input"]
+    if "fixture" in inp:
+        print("fixture", inp["fixture"], "history", inp["history"])
+        for f in fixture_case(inp["fixture"]):
+            print("  ", f[0], f[1]["step"], f[2])
+        return 1
     if "history" not in inp:
         print("non-layer probe:", inp, "->", nonlayer_probe(only=(inp["value"], inp["method"])))
         return 1
